@@ -155,6 +155,12 @@ Proof.
   - rewrite (has_gid_not_in nm (x :: r) H x (or_introl eq_refl)). apply IH. intro Hin. apply H. simpl. now right.
 Qed.
 
+Lemma fresh_name_free : forall gs n id, ~ In (mkname n id) (map gid gs) -> fresh_name gs n id = mkname n id.
+Proof.
+  intros gs n id H. unfold fresh_name. destruct (List.length gs); simpl; auto.
+  unfold name_taken. now rewrite (existsb_not_in _ gs H).
+Qed.
+
 (* the i-th group created when L groups exist is named with index L - 1 *)
 Fixpoint named (L : nat) (rest : list (list Z)) : list group :=
   match rest with
@@ -279,12 +285,17 @@ Section Refine.
       destruct (seg_inv_ready c0 (st_segs st1) (root_id k) Hok Hs1 Hroot) as [s [p [Hget [Hsid Hp]]]].
       unfold sect_child at 2. cbn [bind]. rewrite Hget. cbn [bind]. rewrite Hsid, Hp. cbn [bind].
       set (G := st_groups st1) in *. set (L := List.length G) in *.
-      set (name := mkname (Z.of_nat (List.length (st_groups (set_prox (root_id k) p st1))) - 1) (root_id k)).
-      assert (Hname : name = mkname (Z.of_nat L - 1) (root_id k)) by reflexivity.
       rewrite (sect_tree_split k) in Hfresh. cbn [app named map] in Hfresh. rewrite first_chain_hd in Hfresh.
       rewrite named_app, map_app in Hfresh.
-      assert (Hnotin : ~ In name (map gid G)).
-      { rewrite Hname. eapply NoDup_app_not_in. exact Hfresh. }
+      assert (Hnotin : ~ In (mkname (Z.of_nat L - 1) (root_id k)) (map gid G)).
+      { eapply NoDup_app_not_in. exact Hfresh. }
+      assert (Hfn : fresh_name (st_groups (set_prox (root_id k) p st1))
+                      (Z.of_nat (List.length (st_groups (set_prox (root_id k) p st1))) - 1) (root_id k)
+                    = mkname (Z.of_nat L - 1) (root_id k)).
+      { cbn [set_prox st_groups]. fold G. fold L. now apply fresh_name_free. }
+      rewrite Hfn.
+      set (name := mkname (Z.of_nat L - 1) (root_id k)) in *.
+      assert (Hname : name = mkname (Z.of_nat L - 1) (root_id k)) by reflexivity.
       assert (Hst3 : add_unbranched_group name (set_prox (root_id k) p st1)
                      = mkst (set_prox_c (root_id k) p (st_segs st1)) (G ++ [mkgroup name [] [] (Some section_nlx)])).
       { unfold add_unbranched_group. cbn [set_prox st_groups st_segs]. fold G. now rewrite (existsb_not_in name G Hnotin). }
@@ -300,14 +311,14 @@ Section Refine.
       + intros g Hg x Hx. cbn [st_groups] in Hg. rewrite (find_app_last name G (mkgroup name [] [] (Some section_nlx)) Hnotin eq_refl) in Hg.
         inversion Hg; subst g. simpl. tauto.
       + cbn [st_groups]. rewrite map_app, app_length. cbn [map gid List.length].
-        fold L. replace (L + 1)%nat with (S L) by lia. cbn [gid] in Hfresh. rewrite <- Hname in Hfresh.
+        fold L. replace (L + 1)%nat with (S L) by lia. cbn [gid] in Hfresh.
         exact (nodup_mid _ _ _ _ Hfresh).
       + rewrite Hsect.
         cbn [st_groups] in Hgroups. rewrite (upd_first_app_last name _ G (mkgroup name [] [] (Some section_nlx)) Hnotin eq_refl) in Hgroups.
         rewrite app_length in Hgroups. cbn [List.length] in Hgroups. fold L in Hgroups.
         replace (L + 1)%nat with (S L) in Hgroups by lia.
         assert (Hg4 : st_groups st4 = (G ++ named L (sect_tree k []))%list).
-        { rewrite Hgroups, (sect_tree_split k). cbn [named]. rewrite first_chain_hd, <- Hname.
+        { rewrite Hgroups, (sect_tree_split k). cbn [named]. rewrite first_chain_hd. fold name.
           unfold add_members. cbn [gid gmembers gincludes gnlx app]. rewrite <- app_assoc. cbn [app]. reflexivity. }
         assert (Hs4 : seg_inv c0 (st_segs st4)) by (eapply sect_seg_inv; [apply mkname_gen| |exact Hsect]; exact Hs2).
         destruct (IHr) with (st1 := st4) as [st' [Hfold [Hg' [Hs' [Hprox' Hmono']]]]].
@@ -449,6 +460,7 @@ Proof.
   fold name in Hfresh |- *.
   cbn [map gid] in Hfresh.
   assert (Hnotin : ~ In name (map gid gs)) by (eapply NoDup_app_not_in; exact Hfresh).
+  cbn [st_groups]. rewrite (fresh_name_free gs (Z.of_nat N) (root_id t) Hnotin). fold name.
   assert (Hst1 : add_unbranched_group name (mkst segs0 gs) = mkst segs0 (gs ++ [mkgroup name [] [] (Some section_nlx)])).
   { unfold add_unbranched_group. cbn [st_groups st_segs]. now rewrite (existsb_not_in name gs Hnotin). }
   rewrite Hst1.
